@@ -799,7 +799,7 @@ func (fc *FuncCtx) execStmt(s ast.Stmt, st *State) *State {
 			op = "-"
 		}
 		nv := scalar(cur.Sh, "("+op+" "+cur.T()+" 1)")
-		fc.overflowCheck(st, x, nv)
+		nv = fc.overflowCheck(st, x, nv)
 		lv.store(st, nv)
 		return st
 	case *ast.DeclStmt:
